@@ -474,3 +474,54 @@ def dispatch_results_unconstrained(ck, rule):
                 ck.check(kws <= {"like", "raw"} and len(c.args) == 1, rule, f, "%s builds its result with the constructor on the value (only like= / raw= of the configured output)" % name,
                          "%s" % src(c)[:70], c, "an imposed signedness/size quantizes the numpy result (negative entries of a mixed-sign product saturate to 0)")
         ck.saw(f)
+
+
+def numpy_dispatch_transparent(ck, rule):
+    """C15.R5: the numpy protocol methods hand the call to the registered fxpmath function unchanged - the caller's positional arguments and keyword
+    record, nothing added, removed or converted - and the output post-processor passes the function's result object itself to the configured
+    destination (so sizes, method and flags are those of the direct call)."""
+    prog = ck.prog
+    for name in ("__array_ufunc__", "__array_function__"):
+        f = prog.func("objects.Fxp." + name)
+        ps = [p for p in f.params if p != "self"]
+        star = f.node.args.vararg.arg if f.node.args.vararg else None
+        kwn = f.node.args.kwarg.arg if f.node.args.kwarg else None
+        n_ok = 0
+        for pf in fpaths(prog, f):
+            if pf.end != "return" or pf.ret is None:
+                continue
+            reg = [c for c in ast.walk(pf.ret) if isinstance(c, ast.Call) and isinstance(c.func, ast.Subscript) and dotted(c.func.value) == "_NUMPY_HANDLED_FUNCTIONS"]
+            if not reg:
+                continue
+            c = reg[0]
+            pos_ok = len(c.args) == 1 and isinstance(c.args[0], ast.Starred) and dotted(c.args[0].value) in ((star,) if star else ("args", "inputs"))
+            spreads = [k for k in c.keywords if k.arg is None]
+            kw_ok = len(spreads) == 1 and len(c.keywords) == 1 and dotted(spreads[0].value) in ((kwn,) if kwn else ("kwargs",))
+            kwname = kwn or "kwargs"
+            touched = [st for st in pf.stores if st.depth == 0 and isinstance(st.target, ast.Subscript) and st.path == kwname] + \
+                      [ce for ce in pf.calls if ce.depth == 0 and isinstance(ce.raw.func, ast.Attribute) and dotted(ce.raw.func.value) == kwname
+                       and ce.raw.func.attr in ("setdefault", "update", "pop", "clear", "popitem", "__setitem__")]
+            if not (pos_ok and kw_ok) or touched:
+                what = "calls %s" % src(c)[:90] if not (pos_ok and kw_ok) else "keyword record modified before the dispatch: %s" % src(getattr(touched[0], "stmt", None) or touched[0].raw)[:70]
+                ck.bad(rule, f, "%s hands the caller's arguments and keywords to the registered function unchanged" % name, what, pf.ret_stmt,
+                       "np.<f>(x, ...) and the direct call x.<f>(...) / fxpmath.<f>(x, ...) would compute with different operands, method or sizing")
+                continue
+            n_ok += 1
+        ck.check(n_ok >= 1, rule, f, "%s dispatches registered functions transparently (%d path(s))" % (name, n_ok), "%s has no path through the registry" % name, f.node)
+        ck.saw(f)
+    g = prog.func("objects.Fxp._set_array_output_type")
+    p0 = [p for p in g.params if p != "self"][0]
+    okall = True
+    for pf in fpaths(prog, g):
+        if pf.end != "return" or pf.ret is None:
+            continue
+        r = peel(pf.ret)[0]
+        if isinstance(r, ast.Call) and ((isinstance(r.func, ast.Attribute) and r.func.attr == "set_val") or prog.is_fxp_ctor(g, r) or dotted(r.func) in ("self.__class__",)):
+            a0 = r.args[0] if r.args else kw(r, "val")
+            if dotted(a0) != p0:
+                okall = False
+                ck.bad(rule, g, "the post-processor hands the function's result object itself to the configured destination", "passes %s" % (src(a0)[:60] if a0 is not None else None), pf.ret_stmt,
+                       "passing a value extracted from the result drops what the result object carries (inaccuracy flag, raw codes)")
+    if okall:
+        ck.ok(rule, g, "_set_array_output_type passes its argument itself to out.set_val / the constructor on every path")
+    ck.saw(g)
